@@ -20,6 +20,10 @@ pub struct ChaosCase {
     pub max_ms: u64,
     /// per request: gap to the previous arrival (0 = same instant), inner latency, ok
     pub requests: Vec<(u8, u8, bool)>,
+    /// bit i (mod 64) set: request i goes through a fresh clone of the service instead of the
+    /// original handle (the decisions must not depend on which handle serves a request)
+    #[serde(default)]
+    pub clone_mask: u64,
 }
 
 fn rate() -> BoxedStrategy<u16> {
@@ -41,14 +45,16 @@ fn case_strategy(tier: Tier) -> BoxedStrategy<ChaosCase> {
             (prop_oneof![2 => Just(0u8), 1 => 1u8..=5], prop_oneof![2 => Just(0u8), 1 => 0u8..=8], prop::bool::weighted(0.8)),
             1..=max_reqs,
         ),
+        prop_oneof![1 => Just(0u64), 1 => Just(u64::MAX), 2 => any::<u64>()],
     )
-        .prop_map(|(seed, error_rate, latency_rate, min_ms, max_ms, requests)| ChaosCase {
+        .prop_map(|(seed, error_rate, latency_rate, min_ms, max_ms, requests, clone_mask)| ChaosCase {
             seed,
             error_rate,
             latency_rate,
             min_ms,
             max_ms,
             requests,
+            clone_mask,
         })
         .boxed()
 }
@@ -68,7 +74,8 @@ struct Obs {
 
 const INJECTED: u32 = 999;
 
-/// which: 0 = fresh layer built from the seed, 1 = second `.layer()` call on one layer object
+/// which: 0 = fresh layer built from the seed, 1 = second `.layer()` call on one layer object,
+/// 2 = like 0 but requests selected by `clone_mask` go through fresh clones of the service
 async fn trace(case: &ChaosCase, which: u8) -> (Vec<Obs>, Vec<String>) {
     let mut violations = vec![];
     let log = Log::new();
@@ -125,8 +132,14 @@ async fn trace(case: &ChaosCase, which: u8) -> (Vec<Obs>, Vec<String>) {
                     key: 1,
                     tag: 0xCA05_0000 + i as u64,
                 };
-                let _ = futures::future::poll_fn(|cx| svc.poll_ready(cx)).await;
-                let fut = svc.call(req);
+                let fut = if which == 2 && (case.clone_mask >> (i % 64)) & 1 == 1 {
+                    let mut c = svc.clone();
+                    let _ = futures::future::poll_fn(|cx| c.poll_ready(cx)).await;
+                    c.call(req)
+                } else {
+                    let _ = futures::future::poll_fn(|cx| svc.poll_ready(cx)).await;
+                    svc.call(req)
+                };
                 task[i] = Some(sim.spawn_call(fut, |r: Result<Resp, SErr>| match r {
                     Ok(resp) => Outcome::Ok {
                         serial: resp.serial,
@@ -226,8 +239,16 @@ pub fn run_case(case: &ChaosCase) -> Report {
     let (a, va) = sim::run_case(trace(case, 0));
     let (b, vb) = sim::run_case(trace(case, 0));
     let (c, vc) = sim::run_case(trace(case, 1));
-    for v in va.into_iter().chain(vb).chain(vc) {
+    let (d, vd) = sim::run_case(trace(case, 2));
+    for v in va.into_iter().chain(vb).chain(vc).chain(vd) {
         r.fail(v);
+    }
+    if a != d {
+        let i = (0..a.len()).find(|&i| a[i] != d[i]).unwrap_or(0);
+        r.fail(format!(
+            "the decisions depend on which clone of the service serves a request: with requests routed through fresh clones (mask {:#x}) request {i} gives {:?}, through the original handle {:?}",
+            case.clone_mask, d[i], a[i]
+        ));
     }
     if a != b {
         let i = (0..a.len()).find(|&i| a[i] != b[i]).unwrap_or(0);
@@ -307,6 +328,9 @@ pub fn run_case(case: &ChaosCase) -> Report {
     if case.min_ms > case.max_ms {
         r.class("min_greater_than_max");
     }
+    if case.clone_mask != 0 {
+        r.class("requests_through_fresh_clones");
+    }
     r.trace = json!({"first_observations": a.iter().take(12).collect::<Vec<_>>(), "requests": a.len()});
     r
 }
@@ -330,7 +354,7 @@ impl Property for C19 {
         run_case(case)
     }
     fn rule(&self) -> String {
-        "proptest-generated (seed u64, error rate and latency rate from {0, 0.5, 1, uniform} in thousandths, min/max latency 0-30 whole ms incl. equal and reversed, 1-60/200 requests with arrival gaps 0-5 ms - bursts share an instant -, inner latency 0-8 ms, ok/error). Each case runs three services: two from separately built equally seeded layers and one from a second layer() call of one layer. Oracle: metamorphic - identical per-request (decision, injected delay, resolution instant, outcome) sequences; injected error => no inner entry and the error is built for this request; otherwise inner entered exactly once with the identical request and the caller gets its own result at inner completion; rates 0 => no injection at all; error rate 1 => every call fails, inner never entered; every latency injection announced through the listener lies within [min(min,max), max(min,max)] and equals the observed delay from arrival to inner entry; without an announcement the inner call starts in the arrival instant. Non-trivial: the sequence contains an injected error, an injected latency and a pass; distinct by hash of the case".into()
+        "proptest-generated (seed u64, error rate and latency rate from {0, 0.5, 1, uniform} in thousandths, min/max latency 0-30 whole ms incl. equal and reversed, 1-60/200 requests with arrival gaps 0-5 ms - bursts share an instant -, inner latency 0-8 ms, ok/error). Each case runs four services: two from separately built equally seeded layers, one from a second layer() call of one layer, and one whose requests partly go through fresh clones of the service (generated mask). Oracle: metamorphic - identical per-request (decision, injected delay, resolution instant, outcome) sequences; injected error => no inner entry and the error is built for this request; otherwise inner entered exactly once with the identical request and the caller gets its own result at inner completion; rates 0 => no injection at all; error rate 1 => every call fails, inner never entered; every latency injection announced through the listener lies within [min(min,max), max(min,max)] and equals the observed delay from arrival to inner entry; without an announcement the inner call starts in the arrival instant. Non-trivial: the sequence contains an injected error, an injected latency and a pass; distinct by hash of the case".into()
     }
     fn assumptions(&self) -> Vec<String> {
         vec![
